@@ -1,0 +1,29 @@
+//go:build verif
+
+package ccb
+
+import (
+	"context"
+	"net"
+
+	"github.com/bbockelm/cedar/stream"
+)
+
+// Verification hooks (build tag "verif" only): thin exported wrappers around the
+// unexported requester pieces so the correspondence harness can drive them without
+// a broker handshake. Add-only; with the tag off this file is not compiled.
+
+// VerifAcceptReversed is acceptReversed.
+func VerifAcceptReversed(ctx context.Context, ln net.Listener, connectID string) (net.Conn, error) {
+	return acceptReversed(ctx, ln, connectID)
+}
+
+// VerifProxyRequestOnStream is proxyRequestOnStream.
+func VerifProxyRequestOnStream(ctx context.Context, brokerConn net.Conn, brokerStream *stream.Stream, ccbid, route, connectID, returnAddr, name string) (net.Conn, error) {
+	return proxyRequestOnStream(ctx, brokerConn, brokerStream, ccbid, route, connectID, returnAddr, name)
+}
+
+// VerifReadBrokerFailure is readBrokerFailure.
+func VerifReadBrokerFailure(ctx context.Context, s *stream.Stream) error {
+	return readBrokerFailure(ctx, s)
+}
